@@ -3,6 +3,7 @@ package main
 import (
 	"fmt"
 	"sort"
+	"strings"
 	"time"
 
 	"github.com/internetarchive/Zeno/verifsim/scen"
@@ -145,7 +146,20 @@ func init() {
 		components: map[string]string{"internal/pkg/controler/pause": "real code with hook points", "subscribers": "simulated workers with the shape of the stage worker loops (the real loops run in the pipeline engine, where C03's stop/pause enumeration exercises them)", "controllers (disk watchdog, WARC-queue watchdog, operator)": "simulated actors issuing matched and unmatched Pause/Resume sequences", "scheduler, select tie-breaks": "owned by the simulator"},
 		rule:       "one case = one bubble: 1-5 subscribers (some exiting early), 1-3 independent controllers each running a script over {pause, resume} (matched, repeated, unmatched), a feeder offering work, then shutdown; all choices from one tape; distinct = distinct event-log hash; all cases interleave >= 3 actors",
 		planFn: func(p *propDef, tier string, seed uint64, n int) []*Case {
-			return compCases("C14", "pause", n, 150, seed, nil)
+			cases := compCases("C14", "pause", n, 150, seed, nil)
+			// the real stage worker loops: the pause / resume / stop cases of the stop enumeration (operator pauses and the disk watchdog)
+			nProf := 3
+			if tier == "thorough" {
+				nProf = 12
+			}
+			for _, c := range planC03(p, tier, seed^0xc14, nProf) {
+				if strings.Contains(c.Label, "pause") || strings.Contains(c.Label, "disk-low") {
+					c.Idx = len(cases)
+					c.Label = "pipeline: " + c.Label
+					cases = append(cases, c)
+				}
+			}
+			return cases
 		}}
 	props["C13"] = &propDef{level: "exploration", assumptions: append([]string{"the window bound is evaluated on release instants of the fake clock with an absolute tolerance of 1e-6 tokens (the limiter accumulates float64 tokens)", "per-host state is only checked while the host keeps its bucket: runs of the class 'evict' (more hosts than buckets, short clean-up period) are explored for crashes/hangs only"}, compAssumptions...), quickRuns: 32, thorRuns: 600,
 		components: map[string]string{"internal/pkg/archiver/ratelimiter": "real code with hook points, real time package on the synctest fake clock", "waiters / reporters": "simulated actors"},
@@ -257,6 +271,16 @@ func init() {
 			cases := compCases("C17", "stats", max(2, n/10), 100, seed, nil)
 			for _, c := range c17crawl.plan(tier, seed, n) {
 				c.Idx = len(cases)
+				cases = append(cases, c)
+			}
+			// "zero after stop" whenever the stop comes: the stop / pause enumeration of C03 (workers leave through every exit path)
+			nProf := 1
+			if tier == "thorough" {
+				nProf = 8
+			}
+			for _, c := range planC03(p, tier, seed^0xc17, nProf) {
+				c.Idx = len(cases)
+				c.Label = "stop-enumeration: " + c.Label
 				cases = append(cases, c)
 			}
 			return cases
